@@ -1,6 +1,7 @@
 package main
 
 import (
+	"go/types"
 	"regexp"
 	"strings"
 	"unicode/utf8"
@@ -65,6 +66,17 @@ func foldStringCall(callee *ssa.Function, args []iv) (iv, bool) {
 				return ivBool(strings.HasSuffix(a, b)), true
 			}
 		}
+	case "strings.IndexByte", "strings.IndexRune":
+		if a, ok := str(0); ok && len(args) > 1 && args[1].k == 'i' {
+			if name == "strings.IndexByte" {
+				return ivInt(int64(strings.IndexByte(a, byte(args[1].i)))), true
+			}
+			return ivInt(int64(strings.IndexRune(a, rune(args[1].i)))), true
+		}
+	case "strings.ContainsRune":
+		if a, ok := str(0); ok && len(args) > 1 && args[1].k == 'i' {
+			return ivBool(strings.ContainsRune(a, rune(args[1].i))), true
+		}
 	case "strings.Contains":
 		if a, ok := str(0); ok {
 			if b, ok := str(1); ok {
@@ -73,4 +85,13 @@ func foldStringCall(callee *ssa.Function, args []iv) (iv, bool) {
 		}
 	}
 	return iv{}, false
+}
+
+func isByteSlice(t types.Type) bool {
+	sl, ok := t.Underlying().(*types.Slice)
+	if !ok {
+		return false
+	}
+	b, ok := sl.Elem().Underlying().(*types.Basic)
+	return ok && b.Kind() == types.Uint8
 }
